@@ -350,6 +350,85 @@ def hist(cases, obs):
     return rc.histogram([c["prog"] for c in cases], [o.get("faulted") if isinstance(o, dict) else o for o in obs])
 
 
+# ------------------------------------------------------------------ a hook fault does not outlive the attempt it happened in
+RETRY_HOOKS = ["before_tag", "before_scenario", "before_step", "after_step", "after_scenario", "after_tag"]
+
+
+def impl_attempts(case):
+    """One feature; its model objects are run twice: in the first attempt the k-th call of one hook kind raises, the second
+    attempt has no fault. A third run sends freshly parsed objects through a fault-free run."""
+    import io, contextlib
+    from behave.configuration import Configuration
+    from behave.runner import ModelRunner
+    from behave.step_registry import StepRegistry
+    from behave.parser import parse_feature
+    text = "Feature: F\n"
+    for i, (tags, n) in enumerate(case["scenarios"]):
+        if tags:
+            text += "  " + " ".join("@" + t for t in tags) + "\n"
+        text += "  Scenario: S%d\n" % i + "".join("    Given step %d\n" % j for j in range(n))
+    registry = StepRegistry()
+    registry.add_step_definition("step", "step {i:d}", lambda context, i: None)
+
+    def run(features, fault):
+        log = []
+        counter = {}
+        config = Configuration(["--no-color"], load_config=False)
+        config.reporters = []
+        runner = ModelRunner(config, features, step_registry=registry)
+
+        def make(kind):
+            def hook(context, arg):
+                label = arg if kind.endswith("_tag") else getattr(arg, "name", "")
+                log.append([kind, label])
+                counter[kind] = counter.get(kind, 0) + 1
+                if fault and fault[0] == kind and fault[1] == counter[kind]:
+                    raise RuntimeError("hook fault")
+            return hook
+        runner.hooks = {k: make(k) for k in RETRY_HOOKS}
+        with contextlib.redirect_stdout(io.StringIO()), contextlib.redirect_stderr(io.StringIO()):
+            failed = runner.run()
+        return {"log": log, "failed": bool(failed),
+                "scenarios": [[sc.status.name, bool(sc.hook_failed), [st.status.name for st in sc.steps]]
+                              for sc in features[0].scenarios]}
+    shared = [parse_feature(text, filename="x.feature")]
+    first = run(shared, case["fault"])
+    second = run(shared, None)
+    fresh = run([parse_feature(text, filename="x.feature")], None)
+    return {"first": first, "second": second, "fresh": fresh}
+
+
+def oracle_attempts(case, obs):
+    out = []
+    if not obs["first"]["failed"] and len(obs["first"]["log"]) > 0 and case["fault"][1] <= sum(
+            1 for e in obs["fresh"]["log"] if e[0] == case["fault"][0]):
+        out.append(("the attempt in which %s call %d raised does not report failure" % tuple(case["fault"]), "hook-fault-green"))
+    if obs["second"]["log"] != obs["fresh"]["log"]:
+        out.append(("a fault-free second attempt on the same objects calls hooks %s; a fault-free run calls %s (in the first attempt "
+                    "%s call %d raised)" % (obs["second"]["log"], obs["fresh"]["log"], case["fault"][0], case["fault"][1]),
+                    "hook-fault-outlives-attempt-calls"))
+    if obs["second"]["scenarios"] != obs["fresh"]["scenarios"] or obs["second"]["failed"] != obs["fresh"]["failed"]:
+        out.append(("a fault-free second attempt on the same objects ends with %s failed=%s; a fault-free run ends with %s failed=%s "
+                    "(in the first attempt %s call %d raised)" % (obs["second"]["scenarios"], obs["second"]["failed"],
+                                                                   obs["fresh"]["scenarios"], obs["fresh"]["failed"],
+                                                                   case["fault"][0], case["fault"][1]),
+                    "hook-fault-outlives-attempt-result"))
+    return out
+
+
+def attempts_suite(tier, rnd):
+    cases = []
+    n = 160 if tier == "thorough" else 40
+    for _ in range(n):
+        scs = [[rnd.sample(["a", "b"], rnd.randint(0, 2)), rnd.randint(1, 3)] for _ in range(rnd.randint(1, 3))]
+        kind = rnd.choice(RETRY_HOOKS)
+        cases.append({"scenarios": scs, "fault": [kind, rnd.randint(1, 3)]})
+    return {"name": "repeated_attempts", "cases": cases, "impl": impl_attempts, "oracle": oracle_attempts,
+            "nontrivial": lambda c, o: o["first"]["log"] != o["fresh"]["log"] or o["first"]["scenarios"] != o["fresh"]["scenarios"],
+            "bound": "%d features of 1-3 scenarios with 0-2 tags and 1-3 steps, run twice on the same objects: one raising "
+                     "tag / scenario / step hook call in the first attempt, none in the second, compared with a fresh fault-free run" % n}
+
+
 KINDS = [("pass", 10), ("fail", 2), ("error", 1), ("pending", 1), ("undefined", 1), ("skip", 1),
          ("abort", 0.3), ("kbd", 0.3), ("cleanupok", 1)]
 
@@ -399,4 +478,5 @@ def suites(tier, seed):
     return [{"name": "faults", "cases": cases, "impl": impl_pair, "oracle": oracle, "nontrivial": nontrivial,
              "histogram": hist, "shrink": shrink,
              "bound": "%d programs x every hook invocation of their fault-free run (%d runs)" % (nprog, len(cases)),
-             "coq": dict(rc.COQ, enc=enc)}]
+             "coq": dict(rc.COQ, enc=enc)},
+            attempts_suite(tier, rnd)]
